@@ -218,6 +218,18 @@ theorem iter_lookup_total (d : D α) (i : Nat) (hi : i < d.length) :
   rw [iterIrregFrom_getElem 0 d i h hi]
   simp [get?_cons]
 
+/-- Iteration is a function of the dataset alone (no cursor shared with the dataset): two
+overlapping iterations — `zip(fd, fd)`, nested loops, two live iterators — see the same pieces. -/
+theorem iter_overlapping (d : D α) (rows : List α) :
+    (iterIrreg d).zip (iterIrreg d) = (iterIrreg d).map (fun p => (p, p)) ∧
+      (iterDense rows).zip (iterDense rows) = (iterDense rows).map (fun p => (p, p)) := by
+  have zip_self : ∀ {γ : Type} (l : List γ), l.zip l = l.map fun p => (p, p) := by
+    intro γ l
+    induction l with
+    | nil => rfl
+    | cons a t ih => simp [ih]
+  exact ⟨zip_self _, zip_self _⟩
+
 /-- Dense data: iteration followed by concatenation is the identity. -/
 theorem iter_concat_dense (rows : List α) : concatDense (iterDense rows) = rows := by
   unfold concatDense iterDense
@@ -286,6 +298,20 @@ theorem concat_pieces_partial (pieces : List (D α)) (h : ∀ d ∈ pieces, Cano
   simpa [concatImpl, concatSpec, fresh, freshFrom] using this
 
 example : concatImpl [[((0 : Int), "a"), (1, "b")], [(0, "c")]] = [(0, "a"), (1, "b"), (2, "c")] := by decide
+
+/-- On canonically labelled pieces — any number of them — the coded concatenation loses nothing:
+the number of observations of the result is the sum over the pieces. -/
+theorem concat_nobs_partial (pieces : List (D α)) (h : ∀ d ∈ pieces, Canonical d) :
+    (concatImpl pieces).length = (pieces.map List.length).sum := by
+  rw [concat_pieces_partial pieces h]
+  unfold concatSpec fresh
+  rw [freshFrom_length, List.length_flatten, List.map_map]
+  congr 1
+  apply List.map_congr_left
+  intro d _
+  simp [vals]
+
+example : (concatImpl [[((0 : Int), "a")], [(0, "b"), (1, "c")], [(0, "d")], [(0, "e")]]).length = 5 := by decide
 
 /-- … hence, on such pieces, every grouping agrees for the code as well. -/
 theorem concat_assoc_partial (groups : List (List (D α))) (h : ∀ g ∈ groups, ∀ d ∈ g, Canonical d) :
